@@ -65,9 +65,20 @@ func (r *ComDoc) writeSector(sector SecID, content []byte) error {
 	return err
 }
 
+// Look up the sector that follows the given one in an allocation table
+func nextInChain(sat []SecID, sector SecID) (SecID, error) {
+	if sector < 0 || int(sector) >= len(sat) {
+		return 0, errors.New("sector ID is out of range")
+	}
+	return sat[sector], nil
+}
+
 // Mark a chain of sectors as free
 func freeSectors(sat []SecID, sector SecID) {
 	for {
+		if sector < 0 || int(sector) >= len(sat) {
+			break
+		}
 		nextSector := sat[sector]
 		sat[sector] = SecIDFree
 		if nextSector < 0 {
@@ -128,19 +139,21 @@ func (r *ComDoc) makeFreeSectors(count int, short bool) []SecID {
 // there are no more sectors.
 func (r *ComDoc) readSAT() error {
 	count := r.SectorSize / 4
-	sat := make([]SecID, count*int(r.Header.SATSectors))
-	position := 0
+	// the table grows as sectors are read, not by what the header claims
+	limit := int64(count) * int64(r.Header.SATSectors)
+	var sat []SecID
+	chunk := make([]SecID, count)
 	for _, sector := range r.MSAT {
 		if sector < 0 {
 			continue
 		}
-		if position >= len(sat) {
+		if int64(len(sat)) >= limit {
 			return errors.New("msat has more sectors than indicated")
 		}
-		if err := r.readSectorStruct(sector, sat[position:position+count]); err != nil {
+		if err := r.readSectorStruct(sector, chunk); err != nil {
 			return err
 		}
-		position += count
+		sat = append(sat, chunk...)
 	}
 	r.SAT = sat
 	return nil
